@@ -929,9 +929,10 @@ func (l *Loader) appendSubgraphError(res *result, fetchItem *FetchItem, value *a
 	// print them into the buffer to be able to parse them
 	errorsJSON := value.MarshalTo(nil)
 	graphqlErrors := make([]GraphQLError, 0, len(values))
-	err := json.Unmarshal(errorsJSON, &graphqlErrors)
-	if err != nil {
-		return errors.WithStack(err)
+	if err := json.Unmarshal(errorsJSON, &graphqlErrors); err != nil {
+		// Entries that do not have the shape of a GraphQL error must not abort the whole operation:
+		// the failure of this subgraph is still recorded, without the details that cannot be decoded.
+		graphqlErrors = graphqlErrors[:0]
 	}
 
 	subgraphError := NewSubgraphError(res.ds, fetchItem.ResponsePath, failedToFetchNoReason, res.statusCode)
